@@ -182,8 +182,12 @@ func (g *gen) call0(x *ssa.Call, st State, reach string) string {
 			return g.callInline(x, callee, args, st, reach)
 		}
 	}
-	if mc, ok := c.Value.(*ssa.MakeClosure); ok {
-		_ = mc
+	// small, loop-free, uncontracted helpers of a loaded package are inlined rather than summarised: a proof must
+	// not break because verified logic was moved into a helper (extract-function refactors)
+	if callee, ok := c.Value.(*ssa.Function); ok && g.prog.autoInlinable(callee) && g.inlineDepth < 3 {
+		if r, done := g.tryInline(x, callee, args, st, reach); done {
+			return r
+		}
 	}
 	// callee without contract whose body is loaded: havoc exactly the heap components it (transitively)
 	// writes, as found by a dry symbolic run — a write-set summary
@@ -846,6 +850,42 @@ func (g *gen) resolveModifies(m string, fc *FuncContract) []string {
 }
 
 // ------------------------------------------------------------ inlining
+
+// tryInline inlines callee; if its body leaves the modelled subset everything is rolled back and the caller falls
+// back to the write-set summary.
+func (g *gen) tryInline(x *ssa.Call, callee *ssa.Function, args []Val, st State, reach string) (res string, done bool) {
+	saved := st.clone()
+	nAss, nObl, nUns := len(g.ctx.assumes), len(g.obls), len(g.unsupported)
+	savedCounters := map[string]int{}
+	for k, v := range g.counters {
+		savedCounters[k] = v
+	}
+	defer func() {
+		if r := recover(); r != nil {
+			if _, ok := r.(unsupportedErr); !ok {
+				panic(r)
+			}
+			for k := range st {
+				delete(st, k)
+			}
+			for k, v := range saved {
+				st[k] = v
+			}
+			g.ctx.assumes = g.ctx.assumes[:nAss]
+			g.obls = g.obls[:nObl]
+			g.unsupported = g.unsupported[:nUns]
+			for k := range g.counters {
+				delete(g.counters, k)
+			}
+			for k, v := range savedCounters {
+				g.counters[k] = v
+			}
+			delete(g.vals, x)
+			res, done = "", false
+		}
+	}()
+	return g.callInline(x, callee, args, st, reach), true
+}
 
 func (g *gen) callInline(x *ssa.Call, callee *ssa.Function, args []Val, st State, reach string) string {
 	g.ctx.note("inlined: " + funcKey(callee))
